@@ -312,7 +312,36 @@ def h20b_shards(tier):
     return out
 
 
+# ---------------------------------------------------------------- H20c loading from text
+
+def h20c(mask: int, origin_arg: bool, relativize: bool, absolute_owners: bool) -> bool:
+    """A zone loaded from text - origin given as an argument or only by a $ORIGIN directive, owners relative or absolute -
+    has exactly the flags, delegation index and order its content implies."""
+    lines = ["$ORIGIN example."]
+    members = [(0, "SOA"), (0, "NS")] + [INITIAL[k] for k in range(2, len(INITIAL)) if (mask >> (k - 2)) % 2 == 1]
+    for i, t in members:
+        owner = ABS[i].to_text() if absolute_owners else POOL[i]
+        rdata = {"SOA": "ns.example. hostmaster.example. 1 2 3 4 5", "NS": "ns.example.", "A": "10.0.0.1"}[t]
+        lines.append("%s 300 IN %s %s" % (owner, t, rdata))
+    text = "\n".join(lines) + "\n"
+    z = dns.zone.from_text(text, origin="example." if origin_arg else None, relativize=relativize, zone_factory=dns.btreezone.Zone)
+    hit("loaded")
+    has = content(z, relativize)
+    if nested_cuts(has):
+        return True
+    return derived_ok(z, relativize, has)
+
+
+def h20c_pre(mask, origin_arg, relativize, absolute_owners):
+    return 0 <= mask < 2 ** (len(INITIAL) - 2)
+
+
 HARNESSES = [
+    Harness("H20c", h20c, h20c_pre, lambda tier: [{"_timeout": 900, "_path_timeout": 60}], kind="finite selection, exhaustive",
+            encodes=["dns.btreezone.WritableVersion._is_origin", "dns.btreezone.WritableVersion._maybe_cow_with_name", "dns.zone.from_text",
+                     "dns.zonefile.Reader.read", "dns.zone.Transaction._set_origin"],
+            bound="every subset of the 4 non-apex rrsets of the initial family, loaded from text with the origin as an argument or from $ORIGIN only, relativize on / off, relative or absolute owner spelling",
+            stubs=["E6"], outside="other contents"),
     Harness("H20a", h20a, h20a_pre, h20a_shards, kind="finite selection of operations, exhaustive",
             encodes=["dns.btreezone.WritableVersion._maybe_cow_with_name", "dns.btreezone.WritableVersion.put_rdataset",
                      "dns.btreezone.WritableVersion.delete_rdataset", "dns.btreezone.WritableVersion.delete_node",
